@@ -27,7 +27,10 @@ type Engine struct {
 	fset   *token.FileSet
 	fnByKey map[string]*ssa.Function
 	loadErrs []string
+	summaries map[*ssa.Function]*frameSummary
 }
+
+func ssautilAllFunctions(prog *ssa.Program) map[*ssa.Function]bool { return ssautil.AllFunctions(prog) }
 
 func loadEngine(dir string, patterns []string, extraSpec []string) (*Engine, error) {
 	cfg := &packages.Config{Mode: packages.LoadAllSyntax, Dir: dir, BuildFlags: []string{"-tags=verif"}, Env: append(os.Environ(), "GOFLAGS=-mod=mod", "GOPROXY=off")}
@@ -88,7 +91,75 @@ func loadEngine(dir string, patterns []string, extraSpec []string) (*Engine, err
 			return nil, err
 		}
 	}
+	e.instantiateSweeps()
 	return e, nil
+}
+
+// instantiateSweeps creates a safety-only contract for every function declared in a swept file that has no
+// explicit contract.
+func (e *Engine) instantiateSweeps() {
+	for _, sw := range e.cs.Sweeps {
+		sp := e.spkgs[sw.Pkg]
+		if sp == nil {
+			continue
+		}
+		var fns []*ssa.Function
+		for _, m := range sp.Members {
+			switch x := m.(type) {
+			case *ssa.Function:
+				fns = append(fns, x)
+			case *ssa.Type:
+				for _, t := range []types.Type{x.Type(), types.NewPointer(x.Type())} {
+					ms := e.prog.MethodSets.MethodSet(t)
+					for i := 0; i < ms.Len(); i++ {
+						if fn := e.prog.MethodValue(ms.At(i)); fn != nil && fn.Synthetic == "" {
+							fns = append(fns, fn)
+						}
+					}
+				}
+			}
+		}
+		seen := map[*ssa.Function]bool{}
+		var names []string
+		byName := map[string]*ssa.Function{}
+		for _, fn := range fns {
+			if seen[fn] || fn.Pos() == token.NoPos || len(fn.Blocks) == 0 {
+				continue
+			}
+			seen[fn] = true
+			if filepath.Base(e.fset.Position(fn.Pos()).Filename) != sw.File {
+				continue
+			}
+			name := contractName(fn)
+			if sw.Exclude[name] || name == "init" {
+				continue
+			}
+			names = append(names, name)
+			byName[name] = fn
+		}
+		sort.Strings(names)
+		for _, name := range names {
+			key := sw.Pkg + "::" + name
+			if _, has := e.cs.Funcs[key]; has {
+				continue
+			}
+			c := *sw.Template
+			c.Func = name
+			c.Swept = true
+			c.Options = map[string]string{}
+			for k, v := range sw.Template.Options {
+				c.Options[k] = v
+			}
+			if e.inferNoMods(byName[name]) {
+				c.ModAll = false
+				c.Modifies = nil
+				c.Options["noframe"] = "frame inferred syntactically (stores only to objects the function created)"
+			}
+			e.cs.Funcs[key] = &c
+			e.cs.Order = append(e.cs.Order, key)
+			e.fnByKey[key] = byName[name]
+		}
+	}
 }
 
 // findFunc resolves a contract's function name inside a package.
@@ -208,6 +279,14 @@ const inlineMaxInstrs = 120
 
 func (e *Engine) canInline(fn *ssa.Function, depth int) bool {
 	if fn == nil || len(fn.Blocks) == 0 || depth >= 4 {
+		return false
+	}
+	// only code of the repository under verification is ever unfolded; library code needs a contract or a model
+	pk := fn.Pkg
+	for p := fn.Parent(); pk == nil && p != nil; p = p.Parent() {
+		pk = p.Pkg
+	}
+	if pk == nil || !strings.HasPrefix(pk.Pkg.Path(), "github.com/redis/rueidis") {
 		return false
 	}
 	n := 0
